@@ -35,6 +35,17 @@ type shapeB struct {
 	F    float32
 }
 
+// shapeN: a row struct with fields of defined (named) types, one of them a struct type that is
+// not time.Time itself - the codec cannot fill that one and has to say so, not crash.
+type stampT time.Time
+type levelT float64
+
+type shapeN struct {
+	Name  string
+	Level levelT
+	Stamp stampT
+}
+
 // simTransport is the simulated network: it answers every request from a script.
 type simTransport struct {
 	clen    int64 // Content-Length to announce (-1: unknown / chunked)
@@ -91,6 +102,9 @@ func refField(v reflect.Value, s, format string) error {
 		}
 		v.SetFloat(x)
 	default:
+		if v.Type() != reflect.TypeOf(time.Time{}) {
+			return errors.New("a struct type other than time.Time is not a supported column type")
+		}
 		t, err := time.Parse(format, s)
 		if err != nil {
 			return err
@@ -194,6 +208,13 @@ func validCsv(rng *rand.Rand, shape string, header bool, n int) []byte {
 		for i := 0; i < n; i++ {
 			w.Write([]string{strconv.FormatBool(rng.Intn(2) == 0), time.Date(2020, 1, 1+rng.Intn(300), rng.Intn(24), 0, 0, 0, time.UTC).Format("2006-01-02 15:04:05"),
 				strconv.Itoa(rng.Intn(65536)), strPool[rng.Intn(len(strPool))], strconv.FormatFloat(float64(float32(rng.NormFloat64())), 'g', -1, 32)})
+		}
+	case "N":
+		if header {
+			w.Write([]string{"Name", "Level", "Stamp"})
+		}
+		for i := 0; i < n; i++ {
+			w.Write([]string{strPool[rng.Intn(len(strPool))], strconv.FormatFloat(rng.NormFloat64(), 'g', -1, 64), time.Date(2020, 1, 1+rng.Intn(300), 0, 0, 0, 0, time.UTC).Format("2006-01-02 15:04:05")})
 		}
 	case "S":
 		if header {
@@ -328,7 +349,7 @@ func (c19) Components() (real, stub []string) {
 		[]string{"simulated network: http.DefaultTransport replaced by a scripted RoundTripper (status, body, transport error, body error at an offset)", "FragReader byte source", "consumer task", "scheduler: simrt controller"}
 }
 
-var c19Readers = []string{"csv-header:A", "csv-header:B", "csv-header:S", "csv-noheader:A", "csv-noheader:B", "csv-noheader:S", "json", "tiingo-getsince", "tiingo-lastdate", "file"}
+var c19Readers = []string{"csv-header:A", "csv-header:B", "csv-header:S", "csv-header:N", "csv-noheader:A", "csv-noheader:B", "csv-noheader:S", "csv-noheader:N", "json", "tiingo-getsince", "tiingo-lastdate", "file"}
 
 func (c19) Gen(rng *rand.Rand, tier string, k int) *Case {
 	c := &Case{Family: "ext", Entity: c19Readers[rng.Intn(len(c19Readers))]}
@@ -501,6 +522,10 @@ func (c19) Run(c *Case, st *Stats) []Violation {
 				compare = csvCase[shapeB](c, true, newReader, &srcReader, add)
 			case "csv-header:S":
 				compare = csvCase[asset.Snapshot](c, true, newReader, &srcReader, add)
+			case "csv-header:N":
+				compare = csvCase[shapeN](c, true, newReader, &srcReader, add)
+			case "csv-noheader:N":
+				compare = csvCase[shapeN](c, false, newReader, &srcReader, add)
 			case "csv-noheader:A":
 				compare = csvCase[shapeA](c, false, newReader, &srcReader, add)
 			case "csv-noheader:B":
